@@ -22,7 +22,7 @@ RULE = ('error kinds {404, 405, 400 undecodable path, 400 malformed chunked body
         'string, Host and X-Forwarded-Host; observed through Ombott.__call__ with debug off. Non-trivial = a marker reached the request; '
         'distinct = distinct (error kind, rendering, marker placement and payload).')
 PYOPT = {'quick': 1, 'thorough': 1}     # one unit of every kind is also served by an interpreter started with -O (assert statements compiled out)
-REQUIRED = ['units_run_under_python_-O', 'stock_page_reached_through_default_error_handler()', 'third_error_of_a_chain_rendered', 'debugging_application_in_same_process', 'tag_structure_compared_with_baseline', 'html_pages_parsed', 'json_bodies_parsed', 'marker_ids_found_escaped', 'kind_404', 'kind_405', 'kind_400_path', 'kind_400_body',
+REQUIRED = ['units_run_under_python_-O', 'addresses_of_thousands_of_characters', 'stock_page_reached_through_default_error_handler()', 'third_error_of_a_chain_rendered', 'debugging_application_in_same_process', 'tag_structure_compared_with_baseline', 'html_pages_parsed', 'json_bodies_parsed', 'marker_ids_found_escaped', 'kind_404', 'kind_405', 'kind_400_path', 'kind_400_body',
             'kind_413', 'kind_500', 'kind_last_resort', 'in_query', 'in_host', 'in_path', 'format_syntax_markers']
 ASSUMPTIONS = ['debug is off', 'text the application itself supplies (abort(400, "<i>..")) is not request data',
                'the page is HTML: markup is what html.parser recognises as a tag, attribute or entity']
@@ -211,6 +211,9 @@ def build_lr_app():
     return app
 
 
+LONG = {}
+
+
 def make_case(rng, i, kind, benign_of=None):
     """-> (query string, headers, path suffix, markers).  benign_of: the markers of a previous call; the same
     placements are produced with the bare marker id instead of the payload (baseline page)."""
@@ -235,6 +238,10 @@ def make_case(rng, i, kind, benign_of=None):
         places = benign_of
     if 'query' in places:
         qs = 'a=' + mk('query') + '&' + mk('query')
+    if i % 5 == 3:
+        # a very long address (thousands of characters): padding in the query string, the same in the baseline request
+        qs = (qs + '&' if qs else '') + 'pad=' + 'p' * (700 * (1 + i % 7))
+        LONG['n'] = LONG.get('n', 0) + 1
     if 'host' in places:
         headers['Host'] = 'example.com' + mk('host')
     if 'xfh' in places:
@@ -402,3 +409,4 @@ def run_unit(ctx, unit):
     for i in range(unit['n']):
         kind = KINDS[i % len(KINDS)]
         run_kind(ctx, app, lr_app, rng, i, kind, as_json=(i // len(KINDS)) % 2 == 1, more_apps=more)
+    ctx.count('addresses_of_thousands_of_characters', LONG.get('n', 0) // 2)
